@@ -91,6 +91,8 @@ def build(case):
             d["scale"] = f"scale.{lab}"
         if mode == "full":
             d["global_megacomplex"] = ["mg"]
+            if case.get("axis_scale"):
+                d["spectral_axis_scale"] = case["axis_scale"]
         md["dataset"][lab] = d
         if addon == "baseline":
             extra_labels = extra_labels + [f"{lab}_baseline"]
@@ -98,7 +100,8 @@ def build(case):
         md["shape"] = {"sh1": {"type": "gaussian", "amplitude": "sh.a1", "location": "sh.l1", "width": "sh.w1"},
                        "sh2": {"type": "gaussian", "amplitude": "sh.a2", "location": "sh.l2", "width": "sh.w2"}}  # fmt: skip
         md["megacomplex"]["mg"] = {"type": "spectral", "shape": {"s1": "sh1", "s2": "sh2"}}
-        vals.update({"sh.a1": 1.0, "sh.l1": 620.0, "sh.w1": 60.0, "sh.a2": 0.7, "sh.l2": 670.0, "sh.w2": 45.0})
+        f = case.get("axis_scale") or 1.0
+        vals.update({"sh.a1": 1.0, "sh.l1": 620.0 * f, "sh.w1": 60.0 * f, "sh.a2": 0.7, "sh.l2": 670.0 * f, "sh.w2": 45.0 * f})
     return md, vals, free, species, extra_labels, ds_labels
 
 
@@ -268,6 +271,11 @@ def run(run: core.Run):
                     continue
                 cases.append({"kinetics": kin, "irf": irf, "addon": addon, "mode": mode, "nds": nds, "scale": scale, "coords": coords,
                               "pset": pset, "noise": pset == 0 and nds == 1})  # fmt: skip
+    for kin, irf in (("sequential", "none"), ("parallel", "gaussian"), ("decay", "multi")):
+        for nds, scale, coords in ((1, False, "standard"), (2, True, "descending")):
+            for f in (2.0, 0.01):
+                cases.append({"kinetics": kin, "irf": irf, "addon": "none", "mode": "full", "nds": nds, "scale": scale, "coords": coords,
+                              "pset": 0, "noise": False, "axis_scale": f})  # fmt: skip
     run.map("truth", cases)
     rec = []
     fam = [("sequential", "none", "none", ["k.1", "k.2"]), ("parallel", "gaussian", "none", ["k.1", "k.2", "irf.w"]),
